@@ -225,9 +225,9 @@ def run_one(r, cls, term):
     fields = [getattr(r, n) for n in cls.field_names()]
     out = {"rec": [cps(enc(v)) for v in fields], "term": term, "shown": repr(fields)[:120]}
     try:
-        line = r.save()
+        line = graphwalk.guarded(r.save, 5.0)
         out["line"] = cps(line)
-        back = cls.load(line)
+        back = graphwalk.guarded(lambda: cls.load(line), 5.0)
         out["loaded"] = [cps(enc(getattr(back, n))) for n in cls.field_names()]
         if (back == r) != (out["loaded"] == out["rec"]):
             # the harness's flattening must agree with Python's == ; if not the case is judged by == alone
